@@ -58,7 +58,14 @@ def run(name, rel, old, new):
     dt = time.time() - t0
     txt = r.stdout + r.stderr
     m = re.search(r"verification results:: (\d+) verified, (\d+) errors", txt)
-    tags = sorted(set(re.findall(r"\[(C\d\d RIS[^\]]*)\]", txt)))
+    # map failing lines to their tag comment (verus truncates long source lines in its diagnostics)
+    src = open(out).read().split("\n")
+    tags = set()
+    for ln in re.findall(r"--> (?:/tmp/ris/)?mut\.rs:(\d+):", txt):
+        t = re.search(r"\[(C\d\d RIS[^\]]*)\]", src[int(ln) - 1])
+        if t:
+            tags.add(t.group(1))
+    tags = sorted(tags)
     if m and int(m.group(2)) == 0 and r.returncode == 0:
         return name, "SURVIVED (verus still passes!)", dt
     other = "" if m else " [no result line: rustc/verus error] " + txt.strip()[:300]
